@@ -43,7 +43,8 @@ LEVEL = "exploration"
 RULE = (
     "Hypothesis draws a contractive coupled system (2-5 disciplines, output sizes 1-3, 1-3 design inputs of size 1-2, "
     "rings, several strongly connected components, weakly coupled pre/post and self-coupled disciplines, tanh terms, "
-    "non-coupling outputs, dense or sparse partial Jacobians, optionally disciplines in residual/state form), input "
+    "non-coupling outputs, dense, sparse or matrix-free JacobianOperator partial Jacobians, optionally disciplines in "
+    "residual/state form, optionally design inputs whose whole effect is scaled by 1e-10 or 1e-13), input "
     "values, an MDA (GaussSeidel, Jacobi, NewtonRaphson, MDAChain with either inner MDA and chain_linearize on/off; "
     "tolerance 1e-14), a linearisation configuration (mode auto/direct/adjoint, matrix or linear operator, LU on/off, "
     "linear solver among DEFAULT/LGMRES/GMRES/BICGSTAB/BICG/CGS/GCROT/TFQMR at tolerance 1e-12) and 1-3 successive "
@@ -59,7 +60,11 @@ ASSUMPTIONS = [
     "cond_inf(dR/dy) <= (1+q)/(1-q) <= 1.86",
     "the linearisation point is the MDA solution at tolerance 1e-14 (NO_SCALING): its distance to the exact solution "
     "changes the Jacobian of the mildly non-linear systems by less than 1e-12",
-    "tolerances: |block - closed form| <= 1e-9 (1 + max|closed form|) for DEFAULT / LU, 1e-7 (1 + max) for the named Krylov solvers",
+    "tolerances: |d o/d x_k - closed form| <= tol (2 m_k + max|closed form block|), m_k = largest |partial derivative| of any "
+    "discipline output w.r.t. x_k at the solution (0.5-1.5 for ordinary inputs, 1e-13 times that for badly scaled ones): "
+    "right-hand sides (direct) and final products (adjoint) are proportional to those partials and the linear solves are "
+    "accurate relatively to their right-hand side; tol = 1e-9 for DEFAULT / LU, 1e-7 for the named Krylov solvers",
+    "a badly scaled design input (all its partials times 1e-10 or 1e-13) belongs to the domain: dR/dy stays well conditioned",
     "a RuntimeError 'breakdown' raised, NaN returned or a non-convergence logged (gemseo then uses the unconverged solution) by a named Krylov solver (BICGSTAB, BICG, CGS, GCROT, TFQMR, GMRES, LGMRES) is "
     "inconclusive for that solver (class 'inconclusive:krylov_breakdown'), CG is not used (needs a symmetric matrix)",
     "LU factorisation is requested with the sparse matrix type only (documented ValueError with linear operators, checked)",
@@ -75,7 +80,7 @@ MDAS = ["MDAGaussSeidel", "MDAJacobi", "MDANewtonRaphson", "MDAChain", "MDAChain
 
 @st.composite
 def cases(draw):
-    system = draw(coupled_systems(state_form=draw(st.integers(0, 2)) == 0, operator_jacobians=True,
+    system = draw(coupled_systems(state_form=draw(st.booleans()), operator_jacobians=True,
                                   input_scales=draw(st.integers(0, 2)) == 0))
     values = draw(input_values(system))
     n_in = len(system["x"])
